@@ -374,7 +374,32 @@ func c13GenNeg(t *rapid.T) c13Neg {
 		lines, nl, final := c13GenNDJSON(t)
 		c.Line = rapid.IntRange(0, len(lines)-1).Draw(t, "dl")
 		l := lines[c.Line]
-		switch rapid.IntRange(0, 3).Draw(t, "dk") {
+		switch rapid.IntRange(0, 5).Draw(t, "dk") {
+		case 4, 5:
+			// one structural character lost, swapped for its counterpart, or doubled - somewhere
+			// INSIDE the value (the reference oracle discards mutations that leave the line valid)
+			c.Damage = "structure-mutated"
+			var idx []int
+			for i := 0; i < len(l); i++ {
+				if strings.IndexByte("[]{},:", l[i]) >= 0 {
+					idx = append(idx, i)
+				}
+			}
+			if len(idx) == 0 {
+				l = l + "}"
+				break
+			}
+			p := idx[rapid.IntRange(0, len(idx)-1).Draw(t, "mp")]
+			switch rapid.IntRange(0, 3).Draw(t, "mk") {
+			case 0:
+				l = l[:p] + l[p+1:]
+			case 1:
+				l = l[:p] + string(map[byte]byte{'[': '{', ']': '}', '{': '[', '}': ']', ',': ':', ':': ','}[l[p]]) + l[p+1:]
+			case 2:
+				l = l[:p] + string(l[p]) + l[p:]
+			default:
+				l = l[:p+1] + rapid.SampledFrom([]string{"[", "{", "[}", "{]", "[,", "{,", "[{]"}).Draw(t, "ins") + l[p+1:]
+			}
 		case 0:
 			c.Damage = "truncated-value"
 			if len(l) > 1 {
